@@ -7,6 +7,8 @@ import copy
 import itertools
 from typing import Any, Dict, Hashable, Iterable, List, Sequence, Tuple, Union
 
+from ..exceptions import InitialisationError
+
 
 class AliasMixin:
     """Mixin to add support for aliases for variable names in models and linkers.
@@ -191,7 +193,13 @@ class AliasMixin:
         # (in this example, X -> Z, Y -> Z)
         aliases = copy.deepcopy(self.ALIASES)
 
-        while True:
+        # Remove any variables that point to themselves first: these can never
+        # shorten and would otherwise keep the loop below going forever
+        aliases = {k: v for k, v in aliases.items() if k != v}
+
+        # A chain of n aliases shortens in at most n passes: anything still
+        # chained after that is circular (e.g. X -> Y, Y -> X)
+        for _ in range(len(aliases) + 1):
             # Check for chained aliases by testing to see if there are any
             # shared names between the keys and values. If so, there is at
             # least one link that can still be shortened
@@ -206,6 +214,11 @@ class AliasMixin:
             # leave X -> Z
             # Repeating the loop carries out successive substitution
             aliases = {k: aliases.get(v, v) for k, v in aliases.items()}
+
+        else:
+            raise InitialisationError(
+                f'Found circular definitions in `ALIASES`: {self.ALIASES}'
+            )
 
         # Remove any variables that point to themselves and then store
         aliases = {k: v for k, v in aliases.items() if k != v}
